@@ -55,7 +55,7 @@ def verify(prop, n):
     notes = open(os.path.join(out, 'notes.md')).read() if os.path.exists(os.path.join(out, 'notes.md')) else ''
     open(os.path.join(dst, 'notes.md'), 'w').write(notes)
     meta = {'id': '%s-%s' % (prop, n), 'breaks_property': prop, 'author': 'independent sub-agent given only the property text',
-            'needs_to_manifest': notes.split('\n')[0:1], 'files_touched': sorted({l[6:] for l in open(patch) if l.startswith('+++ b/')}),
+            'needs_to_manifest': notes.split('\n')[0:1], 'files_touched': sorted({l[6:].strip() for l in open(patch) if l.startswith('+++ b/')}),
             'confirmed': [{'cmd': r[0], 'rc': r[1]} for r in ran], 'suite_summary': tail,
             'demo_run': 'add [[test]] name="verif_demo_%s" path="test/verif_demo_%s.rs" to Cargo.toml, copy demo.rs there, cargo test --offline --test verif_demo_%s' % (n, n, n),
             'detected_by': {}}
@@ -86,8 +86,39 @@ def run(seed, props):
     json.dump(meta, open(os.path.join(d, 'meta.json'), 'w'), indent=1)
 
 
+def table():
+    rows = []
+    sd = os.path.join(VERIF, 'seeded')
+    for d in sorted(os.listdir(sd)):
+        mp = os.path.join(sd, d, 'meta.json')
+        if not os.path.exists(mp):
+            continue
+        m = json.load(open(mp))
+        det = m.get('detected_by', {})
+        cells = ['%s: %s' % (p, v['verdict']) for p, v in sorted(det.items())]
+        first = ''
+        np_ = os.path.join(sd, d, 'notes.md')
+        if os.path.exists(np_):
+            for l in open(np_):
+                if l.strip() and not l.startswith('#'):
+                    first = l.strip()[:160]
+                    break
+        rows.append('| %s | %s | %s | %s |' % (d, ', '.join(x.strip() for x in m.get('files_touched', [])), '; '.join(cells) or 'not run', first.replace('|', '/')))
+    out = ['# Seeded changes', '',
+           'Each directory holds a change to rust-crdt written by an independent sub-agent that was given only the text of one property and a',
+           'scratch worktree (nothing from /verif). Every change compiles, passes the unedited test suite, and comes with a demonstration test that',
+           'fails with the change and passes without it; all of that was re-confirmed by `tools/seed.py verify` before the change was kept.',
+           '`detected by` is the outcome of `tools/seed.py run <id> <properties>`: the patch is applied to /repo, `./check <property>` is run, the patch is',
+           'undone. DETECTED = exit 1 with a VIOLATION line whose counterexample replays on the real build; missed = exit 0; inconclusive = exit 2.', '',
+           '| seed | files | detected by | what it is (first line of the author\'s notes) |', '|---|---|---|---|'] + rows
+    open(os.path.join(sd, 'README.md'), 'w').write('\n'.join(out) + '\n')
+    print('\n'.join(rows))
+
+
 if __name__ == '__main__':
-    if sys.argv[1] == 'verify':
+    if sys.argv[1] == 'table':
+        table()
+    elif sys.argv[1] == 'verify':
         sys.exit(verify(sys.argv[2], sys.argv[3]))
     elif sys.argv[1] == 'run':
         run(sys.argv[2], sys.argv[3:])
